@@ -61,7 +61,7 @@ structure LSt where
   reg : Nat → Nat → Nat := fun _ _ => 0
   regS : Nat → List Nat := fun _ => []               -- thread-local copy of the subscription list
   regT : Nat → List Nat := fun _ => []               -- thread-local `subscriptions_to_remove`
-  err : Nat → Nat := fun _ => 0                      -- exception raised inside operation o (1 KeyError, 2 ValueError)
+  err : Nat → Nat := fun _ => 0                      -- exception raised inside operation o (1 KeyError, 2 ValueError, 3 TypeError)
 
 def upd {α : Type} (f : Nat → α) (k : Nat) (v : α) : Nat → α := fun i => if i = k then v else f i
 def upd2 (f : Nat → Nat → Nat) (o k v : Nat) : Nat → Nat → Nat := fun i j => if i = o ∧ j = k then v else f i j
@@ -98,6 +98,17 @@ def dbExists (o i : Nat) (s : LSt) : LSt := { s with reg := upd2 s.reg o 1 (if h
 
 def dbGet (o i slot : Nat) (s : LSt) : LSt :=
   { s with reg := upd2 (upd2 s.reg o slot (if hasKey s.db i then 1 else 0)) o 2 ((lookup s.db i).getD 0) }
+
+/-- The statement between the first look-up of IF.LDM.3 update_provider_data and the rest of the operation:
+`stored_data_container["dataObject"]` (comparison of the message types).  The look-up answers None when the object was
+removed after the existence check had answered True (register 1 = 1, register 6 = 0: the two are separate lock sections);
+subscripting None RAISES TypeError (`err` 3) unless the test `stored_data_container is not None` comes first (`guarded`).
+With the guard the statement does not change the state (`updTypeChk_guarded`) - which is why `compileT` has no
+instruction for it; that the source has the guard is the regenerated fact `optional_lookups_guarded`. -/
+def updTypeChk (guarded : Bool) (o : Nat) (s : LSt) : LSt :=
+  if s.reg o 1 = 1 ∧ s.reg o 6 = 0 ∧ guarded = false then { s with err := upd s.err o 3 } else s
+
+theorem updTypeChk_guarded (o : Nat) (s : LSt) : updTypeChk true o s = s := by simp [updTypeChk]
 
 /-- `update(updated_container, index)`: `self.database[index] = data` — creates the row when the id is absent.  The
 container is the copy fetched by the preceding `get` (register 2 of `o`) with the new payload `w` -/
@@ -392,6 +403,12 @@ theorem skeletons :
 themselves, so a record (`Nat` code in the model) only ever changes through an `update` block under the database lock,
 and an object already returned to a consumer never changes -/
 theorem no_inplace_mutation : Generated.LdmShape.inplace = [] := rfl
+
+/-- every use (`x[…]`, `x.attr`, iteration) of the answer of a single-object look-up (`get`, `get_provider_data`) in the LDM
+sources is dominated by a test that the answer is not None (harness/gen_ldm_shape.py `OptionalUse`): a look-up of an id
+whose existence was checked in an EARLIER lock section may still answer None, and no method dereferences that None - the
+`guarded = true` case of `updTypeChk` is the code -/
+theorem optional_lookups_guarded : Generated.LdmShape.optionalDerefs = [] := rfl
 
 /-- every lock acquisition in the LDM sources is a `with` statement (what harness/gen_locks.py analyses): there is no
 explicit `.acquire()` / `.release()` call -/
